@@ -6,7 +6,9 @@ import (
 	"fmt"
 	"os"
 	"path/filepath"
+	"runtime/debug"
 	"strings"
+	"time"
 )
 
 type ctx struct {
@@ -108,6 +110,13 @@ func main() {
 			os.Exit(2)
 		}
 		loadFindings(*root)
+		// a runaway recursion dies in seconds (default limit: 1 GB of stack, minutes of CPU); legitimate nesting is bounded
+		// by the engine (256 fragment levels) and stays far below this
+		debug.SetMaxStack(256 << 20)
+		if cp := os.Getenv("VERIF_BREADCRUMB"); cp != "" {
+			crumbFile, _ = os.Create(cp)
+			startWatchdog(120 * time.Second)
+		}
 		c := &ctx{prop: *prop, tier: *tier, seed: *seed, root: *root, scale: *scale,
 			corpus: filepath.Join(*root, "corpus", *prop), res: newResult(*prop, *tier, *seed)}
 		if *replay != "" {
